@@ -224,6 +224,8 @@ func (s *Session) Run(ctx context.Context) error {
 
 	s.desiredMinTXInterval = defaultTransmissionInterval
 	sendTimer := time.NewTimer(s.desiredMinTXInterval)
+	// nextSend is the instant at which sendTimer is due.
+	nextSend := time.Now().Add(s.desiredMinTXInterval)
 	pkt := &layers.BFD{}
 MainLoop:
 	for {
@@ -265,15 +267,22 @@ MainLoop:
 			s.transition(ctx, event(s.remoteState))
 			if oldState == stateDown && s.getLocalState() != stateDown {
 				s.desiredMinTXInterval = s.DesiredMinTxInterval
-				// Cancel any pending send to accelerate the timer.
-				if !sendTimer.Stop() {
-					<-sendTimer.C
+				// Cancel any pending send to accelerate the timer. Never postpone a pending
+				// send: the gap since the previous packet must not exceed the interval the
+				// remote bases its detection time on.
+				if d := s.computeNextSendInterval(); time.Until(nextSend) > d {
+					if !sendTimer.Stop() {
+						<-sendTimer.C
+					}
+					sendTimer.Reset(d)
+					nextSend = time.Now().Add(d)
 				}
-				sendTimer.Reset(s.computeNextSendInterval())
 			}
 		case <-sendTimer.C:
 			// Send timer guaranteed to be expired, so we can reset.
-			sendTimer.Reset(s.computeNextSendInterval())
+			d := s.computeNextSendInterval()
+			sendTimer.Reset(d)
+			nextSend = time.Now().Add(d)
 
 			// These conversions are guaranteed to not return an error, because the input has been
 			// sanitized.
